@@ -97,7 +97,8 @@ def verify_contract(c, src_index, unroll=0, timeout_ms=20000, registry=REGISTRY,
                 outcome = ('return', res)
             except PyExc as e:
                 outcome = ('raise', e)
-            ex.last_outcomes.append((outcome[0], outcome[1].cls.__name__ if outcome[0] == 'raise' else _show(outcome[1], run)))
+            if ex.pinned is not None:
+                ex.last_outcomes.append((outcome[0], outcome[1].cls.__name__ if outcome[0] == 'raise' else _show(outcome[1], run)))
             check_outcome(c, cx, outcome, p, run, ex)
             ex.paths += 1
         except PathEnd:
@@ -121,22 +122,39 @@ def verify_contract(c, src_index, unroll=0, timeout_ms=20000, registry=REGISTRY,
                 notes=sorted(ex.notes), vacuous=vacuous, props=list(c.props), outcomes=ex.last_outcomes[:8])
 
 
-def _show(v, run):
-    """engine value -> printable (used in pinned replay runs where everything is concrete)"""
+def _show(v, run, _m=None):
+    """engine value -> printable, evaluated in a model of the path condition (exact when inputs are pinned)"""
     try:
-        v = simp(v) if is_sym(v) else v
+        if _m is None:
+            if run.solver.check() != z3.sat:
+                return '<no model>'
+            _m = run.solver.model()
+
+        def ev(t):
+            if is_sym(t):
+                t = _m.eval(t, model_completion=True)
+                if z3.is_int_value(t):
+                    return t.as_long()
+                if z3.is_true(t):
+                    return True
+                if z3.is_false(t):
+                    return False
+                return str(t)
+            return t
         if isinstance(v, View):
-            n = simp(zint(v.length))
-            if isinstance(n, int) and n <= 512:
-                bs = [simp(v.at(run.heap, k)) for k in range(n)]
+            n = ev(zint(v.length))
+            if isinstance(n, int) and 0 <= n <= 4096:
+                bs = [ev(v.at(run.heap, k)) for k in range(n)]
                 if all(isinstance(b, int) for b in bs):
-                    return {'hex': bytes(bs).hex(), 'kind': v.kind}
+                    return {'hex': bytes(b % 256 for b in bs).hex(), 'kind': v.kind}
             return f'<{v.kind} len={n}>'
-        if isinstance(v, tuple):
-            return [_show(x, run) for x in v]
+        if isinstance(v, (tuple, list)):
+            return [_show(x, run, _m) for x in v]
+        if is_sym(v):
+            return ev(v)
         if isinstance(v, (int, str, bool, type(None))):
             return v
-        return repr(v)[:120]
+        return '<' + type(v).__name__ + '>'
     except Exception as e:      # noqa
         return f'<unprintable {type(v).__name__}>'
 
